@@ -119,6 +119,23 @@ def gen_tapes(rng):
     return tapes
 
 
+def permuter(p):
+    """Iteration order for tornado._verif.OrderedSet: rotate by p, reverse if p & 64."""
+    if not p:
+        return None
+
+    def permute(items):
+        n = len(items)
+        if n < 2:
+            return items
+        r = p % n
+        out = items[r:] + items[:r]
+        if p & 64:
+            out.reverse()
+        return out
+    return permute
+
+
 class Rig:
     def __init__(self, env, model, prefix, viol, probes):
         self.env = env
@@ -130,6 +147,7 @@ class Rig:
         self.futs = {}  # wid -> future
         self.open = []  # wids whose model state or real state is not final yet
         self.order = []  # wids in the order their done-callbacks ran
+        self.done_at = {}  # wid -> loop time when its done-callback ran
         self.exp = {}  # wid -> (phase, rank): where the model says it resolved
         self.blocked = set()  # wids that were pending after the op that created them
         self.phase = 0
@@ -178,7 +196,13 @@ class Rig:
         self.futs[wid] = fut
         self.open.append(wid)
         order = self.order
-        fut.add_done_callback(lambda f, w=wid: order.append(w))
+        done_at = self.done_at
+        loop = self.loop
+
+        def cb(f, w=wid):
+            order.append(w)
+            done_at[w] = loop.time()  # callbacks run at the instant of resolution
+        fut.add_done_callback(cb)
 
     def after_create(self, wid):
         """Call after the creating op was applied to the model."""
@@ -287,6 +311,7 @@ class Rig:
             if rs == want:
                 if m.enabled(wid, now):
                     m.expire(wid, now)
+                    self.env.log.ev("expired", wid, now)
                     self.exp[wid] = grp
                     self.n_expired += 1
                     self.probe("expired_at_exact_deadline" if now == w.deadline
@@ -336,6 +361,7 @@ class Rig:
                 if st == EITHER:
                     self.probe("event_set_after_deadline_wait_succeeded")
                 m.confirm(wid)
+                self.env.log.ev("completed", wid, now)
                 self.n_event_served += 1
             elif st != OK:
                 self.bad(p + ".event_woke_without_set",
@@ -353,6 +379,7 @@ class Rig:
                     if st == EITHER:
                         self.probe("event_set_after_deadline_wait_timed_out")
                     m.expire(wid, now)
+                    self.env.log.ev("expired", wid, now)
                     self.n_expired += 1
                     self.probe("expired_at_exact_deadline" if now == w.deadline
                                else "expired_late")
@@ -429,6 +456,15 @@ class Rig:
     def check_order(self, skip_roles=EVENT_ROLES):
         """Done-callbacks ran in the order in which the model resolved the waiters."""
         m = self.model
+        # timers never fire early: exact, from the instant the future resolved
+        for wid, t in self.done_at.items():
+            w = m.waiter(wid)
+            if w.state == TIMEOUT and w.deadline is not None:
+                at = int((t - T0) * 1024)
+                if at < w.deadline:
+                    self.bad(self.prefix + ".timeout_early",
+                             f"{w.role} waiter #{wid} timed out at {at}, before its deadline "
+                             f"{w.deadline}", f"{self.prefix}.timeout_early/{w.role}")
         seq = [w for w in self.order if w in self.exp and w in self.blocked
                and m.waiter(w).role not in skip_roles]
         last = None
@@ -451,7 +487,10 @@ class Rig:
     def check_logs(self):
         env = self.env
         for r in env.errors():
-            self.bad(self.prefix + ".error_logged", f"{r[0]} {r[1]} {r[2][:100]} {r[3]}",
+            m = r[2]
+            i = m.find(" at 0x")
+            m = m[:i] if i >= 0 else m
+            self.bad(self.prefix + ".error_logged", f"{r[0]} {r[1]} {m[:100]} {r[3]}",
                      f"{self.prefix}.error_logged/{r[3]}")
         for msg, exc in env.loop_errors:
             self.bad(self.prefix + ".loop_error", f"{msg} {exc}",
